@@ -210,6 +210,11 @@ OnCrash ==   \* the server process panicked while serving this case: nothing out
   /\ (E.closed => Verdict("C11", "server-crash-after-disconnect", E.what))
   /\ UNCHANGED <<sent, replied, away, answers, called, answeredN, live, maybe, nclosed, cclosed, dseen>>
 
+OnFlushopMissing ==   \* a Tflush found its target being worked on by an implementation that has a FlushOp, and did not call it:
+                      \* an implementation that answers a blocked request only when told to give it up never answers
+  /\ Verdict("C07", "flushop-not-invoked", E.n)
+  /\ UNCHANGED <<sent, replied, away, answers, called, answeredN, live, maybe, nclosed, cclosed, dseen>>
+
 OnStall ==   \* the server never became quiescent: a goroutine waits for a lock another one holds across a schedule
              \* point or an implementation call (or spins) -- requests are being delayed by an unrelated one
   /\ Verdict("C08", "stalled", E.what)
@@ -248,6 +253,7 @@ Next ==
                   [] E.ev = "initfid" -> OnInitFid
                   [] E.ev = "bystander" -> OnBystander
                   [] E.ev = "stall" -> OnStall
+                  [] E.ev = "flushop-missing" -> OnFlushopMissing
                   [] OTHER -> Skip
   \/ /\ i = Len(Ext) + 1 /\ ~done /\ done' = TRUE
      /\ PrintT(<<"CONSUMED", Len(Ext)>>)
